@@ -6,6 +6,7 @@ import (
 	"bytes"
 	"fmt"
 	"math/big"
+	"strconv"
 
 	"github.com/ontio/ontology/common"
 	"github.com/ontio/ontology/core/payload"
@@ -13,7 +14,6 @@ import (
 	"github.com/ontio/ontology/smartcontract/event"
 	"github.com/ontio/ontology/smartcontract/service/neovm"
 
-	"github.com/ontio/ontology/core/store"
 	"github.com/ontio/ontology/core/types"
 	vm "github.com/ontio/ontology/vm/neovm"
 
@@ -21,50 +21,45 @@ import (
 	"verif/harness/ledgerkit"
 )
 
-// witnesses runs the named probe, or all of them.
-func witnesses(w *world, only string) {
-	if only == "" || only == "deploy-destroyed" {
+// witnesses runs the named probe.
+func witnesses(w *world, in *blockInput) {
+	switch in.Witness {
+	case "deploy-destroyed":
 		w.deployDestroyed()
-	}
-	if only == "" || only == "gasprice-2^59" {
-		w.roundZero()
+	case "gasprice", "gasprice-2^59":
+		p, err := strconv.ParseUint(in.Price, 10, 64)
+		if err != nil {
+			p = 1 << 59
+		}
+		w.gasPriceProbe(p)
 	}
 }
 
-// GasPrice = 2^59: MIN_TRANSACTION_GAS * GasPrice = 20000 * 2^59 = 625 * 2^64 wraps to 0, so the
-// rounding unit handed to tuneGasFeeByHeight is 0 (Proofs/Fee.v: tune_panic_iff, c05_round_zero_panics).
-func (w *world) roundZero() {
+// gasPriceProbe (corpus/C05): a block of two charged transactions with the given gas price, one
+// whose script faults and one whose script would succeed. For the multiples of 2^59
+// GasPrice*MIN_TRANSACTION_GAS wraps to 0; before /repo 96f31c72 tuneGasFeeByHeight divided by that
+// unit and ExecuteBlock panicked. The block must execute; the usual oracle and the correspondence
+// then apply to it (Props/C05.v: c05_round_zero_iff, c05_tune_zero_unit, c05_round_zero_asks_balance).
+func (w *world) gasPriceProbe(price uint64) {
 	c := w.c
-	b := vm.NewParamsBuilder(new(bytes.Buffer))
-	b.Emit(vm.PUSH1)
-	mtx := w.k.InvokeTx(b.ToArray(), 1<<59, 20000)
-	mtx.Payer = w.users[1].Address
-	in := &blockInput{Seed: c.Seed, Witness: "gasprice-2^59", Txs: []*txDesc{{Kind: "script", Payer: 1, Signer: 1, Price: 1 << 59, Limit: 20000}}}
-	if err := ledgerkit.Sign(mtx, w.users[1]); err != nil {
-		c.Fail("driver-gen", "transaction could be built", in, err.Error(), nil)
-		return
+	in := &blockInput{Seed: c.Seed, Witness: "gasprice", Price: strconv.FormatUint(price, 10)}
+	var txs []*types.Transaction
+	for i, op := range []vm.OpCode{vm.THROW, vm.PUSH1} {
+		b := vm.NewParamsBuilder(new(bytes.Buffer))
+		b.Emit(op)
+		who := len(w.users) - 1 - i
+		mtx := w.k.InvokeTx(b.ToArray(), price, 20000+uint64(i))
+		mtx.Payer = w.users[who].Address
+		if err := ledgerkit.Sign(mtx, w.users[who]); err != nil {
+			c.Fail("driver-gen", "transaction could be built", in, err.Error(), nil)
+			return
+		}
+		tx, _ := mtx.IntoImmutable()
+		txs = append(txs, tx)
+		in.Txs = append(in.Txs, &txDesc{Kind: "script", Payer: who, Signer: who, Price: price, Limit: 20000 + uint64(i)})
 	}
-	tx, _ := mtx.IntoImmutable()
-	blk, err := w.k.MakeBlock([]*types.Transaction{tx})
-	if err != nil {
-		c.Fail("driver-gen", "block could be built", in, err.Error(), nil)
-		return
-	}
-	obs := make([]*txObs, 1)
-	hx.Recover(func() { walk(w, blk, obs) })
-	var res store.ExecuteResult
-	panicked, msg := hx.Recover(func() { res, err = w.k.Ledger.ExecuteBlock(blk) })
-	c.Eval()
-	c.Count("witness:gasprice-2^59")
-	_ = res
-	if panicked {
-		w.reportPanic(in, blk, obs, msg)
-		return
-	}
-	c.Note(fmt.Sprintf("gasprice-2^59 witness: no panic (err=%v)", err))
-	if len(obs) == 1 && obs[0] != nil {
-		w.emitPanicCase(in, blk, obs, false)
-	}
+	c.Count("witness:gasprice-" + in.Price)
+	w.runBlock(in, txs, true)
 }
 
 // deployDestroyed: a paid Deploy transaction (outside the property's quantifier) of a contract
@@ -76,7 +71,7 @@ func (w *world) deployDestroyed() {
 	b := vm.NewParamsBuilder(new(bytes.Buffer))
 	b.Emit(vm.PUSH1) // salt (address = hash of the code)
 	b.Emit(vm.DROP)
-	syscall(b, "Ontology.Contract.Destroy")
+	syscall(b, "System.Contract.Destroy")
 	code := b.ToArray()
 	addr := common.AddressFromVmCode(code)
 	dep := func(code []byte, price uint64, by int) (*types.Transaction, error) {
@@ -91,7 +86,10 @@ func (w *world) deployDestroyed() {
 		}
 		return mtx.IntoImmutable()
 	}
-	fail := func(err error) { c.Fail("driver-gen", "deploy witness could be built", nil, err.Error(), nil) }
+	step := fmt.Sprintf("fund (bookkeeper has %d)", w.ongOf(0))
+	fail := func(err error) {
+		c.Fail("driver-gen", "deploy witness could be built", nil, step+": "+err.Error(), nil)
+	}
 	// make sure the payer can pay two deployments (50 ONG each at price 2500)
 	if tx, err := w.transfer(ledgerkit.OngAddr, 0, w.users[1].Address, 200000000000, 0, 30000); err != nil {
 		fail(err)
@@ -100,6 +98,7 @@ func (w *world) deployDestroyed() {
 		fail(err)
 		return
 	}
+	step = "deploy"
 	tx, err := dep(code, 0, 0)
 	if err != nil {
 		fail(err)
@@ -109,6 +108,7 @@ func (w *world) deployDestroyed() {
 		fail(err)
 		return
 	}
+	step = "destroy"
 	cb := vm.NewParamsBuilder(new(bytes.Buffer))
 	cb.EmitPushCall(addr[:])
 	call := w.k.InvokeTx(cb.ToArray(), 0, 100000)
